@@ -311,6 +311,9 @@ func (b *verifB) hint() {
 	b.p("@{")
 	b.list(",", func(i int) {
 		b.name(i)
+		if b.opt() {
+			b.p(". k")
+		}
 		b.p("=")
 		b.simpleExpr()
 	})
@@ -703,17 +706,39 @@ func verifFamSetOp(b *verifB) {
 
 func verifFamPipe(b *verifB) {
 	b.kind, b.entry = "QueryStatement", verifEQuery
-	b.w("FROM")
-	b.p("t")
+	if b.opt() {
+		b.w("SELECT")
+		b.p("a")
+		b.w("FROM")
+		b.p("t")
+	} else {
+		b.w("FROM")
+		b.p("t")
+	}
 	n := b.alt(3)
 	for i := 0; i < n; i++ {
 		b.p("|>")
 		if b.opt() {
 			b.w("SELECT")
-			if b.opt() {
+			switch b.alt(3) {
+			case 1:
 				b.w("DISTINCT")
+			case 2:
+				b.w("ALL")
 			}
-			b.list(",", func(i int) { b.expr() })
+			switch b.alt(3) {
+			case 1:
+				b.w("AS STRUCT")
+			case 2:
+				b.w("AS VALUE")
+			}
+			b.list(",", func(i int) {
+				b.expr()
+				if b.opt() {
+					b.w("AS")
+					b.name(i)
+				}
+			})
 		} else {
 			b.w("WHERE")
 			b.expr()
